@@ -7,7 +7,9 @@ import (
 	"time"
 
 	pb "github.com/wealdtech/eth2-signer-api/pb/v1"
+	"google.golang.org/protobuf/encoding/protowire"
 	"google.golang.org/protobuf/proto"
+	"google.golang.org/protobuf/reflect/protoreflect"
 )
 
 // W6: wire world.  Requests are generated structure-aware, pass through the protobuf wire encoding
@@ -266,15 +268,70 @@ type wireCall struct {
 	call func(ctx context.Context, n *Node, req proto.Message) (proto.Message, error)
 }
 
+// wireMutator, when set (by the C20 runner, which generates requests on one goroutine), may append extra
+// encoded fields to a marshalled request before it is decoded again: things a hand-made client can put on the
+// wire and a canonical marshaller never does.
+var wireMutator func(b []byte, m proto.Message) []byte
+
 func rt[T proto.Message](m T, fresh T) T {
 	b, err := proto.Marshal(m)
 	if err != nil {
 		return m
 	}
+	if wireMutator != nil {
+		if b2 := wireMutator(b, m); b2 != nil {
+			f2 := fresh.ProtoReflect().New().Interface().(T)
+			if proto.Unmarshal(b2, f2) == nil {
+				return f2
+			}
+		}
+	}
 	if proto.Unmarshal(b, fresh) != nil {
 		return m
 	}
 	return fresh
+}
+
+// mutateWire appends up to three extra top-level fields: a bytes or string field present but empty, a second
+// occurrence of a scalar field (the last one wins), the other member of a oneof, an unknown field number.
+func (g *wireGen) mutateWire(b []byte, m proto.Message) []byte {
+	ch := g.rc.Ch
+	if ch.Pick(5, 0) != 4 {
+		return nil
+	}
+	fs := m.ProtoReflect().Descriptor().Fields()
+	out := append([]byte{}, b...)
+	for k, n := 0, 1+ch.Pick(3, 0); k < n; k++ {
+		if fs.Len() == 0 || ch.Pick(6, 0) == 5 {
+			out = protowire.AppendTag(out, protowire.Number(1000+ch.Pick(50, 0)), protowire.BytesType)
+			out = protowire.AppendBytes(out, []byte("unknown field"))
+			continue
+		}
+		f := fs.Get(ch.Pick(fs.Len(), 0))
+		if f.IsList() || f.IsMap() {
+			continue
+		}
+		switch f.Kind() {
+		case protoreflect.BytesKind, protoreflect.StringKind:
+			out = protowire.AppendTag(out, f.Number(), protowire.BytesType)
+			switch ch.Pick(3, 0) {
+			case 0:
+				out = protowire.AppendBytes(out, nil) // present, empty
+			case 1:
+				out = protowire.AppendBytes(out, []byte("Wallet 1/Account 0"))
+			default:
+				out = protowire.AppendBytes(out, make([]byte, []int{1, 31, 32, 48, 49}[ch.Pick(5, 0)]))
+			}
+		case protoreflect.Uint64Kind, protoreflect.Uint32Kind, protoreflect.Int64Kind, protoreflect.Int32Kind, protoreflect.EnumKind, protoreflect.BoolKind:
+			out = protowire.AppendTag(out, f.Number(), protowire.VarintType)
+			out = protowire.AppendVarint(out, []uint64{0, 1, 1 << 31, 1 << 32, 1<<63 - 1, 1 << 63, ^uint64(0)}[ch.Pick(7, 0)])
+		case protoreflect.MessageKind:
+			out = protowire.AppendTag(out, f.Number(), protowire.BytesType)
+			out = protowire.AppendBytes(out, nil) // present, empty sub-message (merged into the first)
+		}
+	}
+	g.rc.Stats.Inc("probe_requests_with_hand_made_wire_fields", 1)
+	return out
 }
 
 func (g *wireGen) next() wireCall {
@@ -491,6 +548,8 @@ func runWire(t *testing.T, rc *RunCtx) {
 	defer c.Close()
 	n := c.Nodes[0]
 	g := &wireGen{rc: rc, pop: n.Pop, epoch: map[int]uint64{}}
+	wireMutator = g.mutateWire
+	defer func() { wireMutator = nil }()
 	canaryAcct := n.Pop.ByPath("Wallet 2/Canary")
 	nReq := 8 + ch.Pick(24, 0)
 	var desc []string
